@@ -21,10 +21,13 @@ pub fn table_sub(f: SigNode, sub: i32, env: &mut Uiua) -> UiuaResult {
     let sig = f.sig;
     let inputs = env.top_n_mut(sig.args())?;
     let shapes: Vec<Shape> = inputs.iter().map(|v| v.shape.clone()).rev().collect();
+    // The number of leading axes the table will make, one for each non-scalar argument
+    let mut tabled_rank = 0;
     for val in inputs {
         if sub != -1 {
             val.deshape_sub(sub + 1, 0, false, Context::NONE)?;
         }
+        tabled_rank += (val.rank() > 0) as usize;
     }
     table_impl(f, env)?;
     let outputs = env.top_n_mut(sig.outputs())?;
@@ -42,7 +45,7 @@ pub fn table_sub(f: SigNode, sub: i32, env: &mut Uiua) -> UiuaResult {
     };
     for val in outputs {
         let mut shape = shape_prefix.clone();
-        shape.extend(val.shape[sig.args()..].iter().copied());
+        shape.extend(val.shape.iter().skip(tabled_rank).copied());
         val.shape = shape;
         val.validate();
     }
